@@ -30,8 +30,22 @@ def _su(ctx):
     return ctx.run.shared["su"]
 
 
+def _closure(ctx, names):
+    """The named functions plus every same-class / same-module helper they call (so that moving a command call into
+    an extracted helper keeps it in the group)."""
+    from ..su import reachable_names
+
+    key = ("closure", tuple(sorted(names)))
+    if key not in ctx.run.shared:
+        roots = [f for f in ctx.repo.all_functions() if f.name in names and not f.mod.startswith("bellows.cli")]
+        ctx.run.shared[key] = set(names) | reachable_names(ctx.repo, roots)
+    return ctx.run.shared[key]
+
+
 def check_sites(ctx, only=None):
     su, sites = _su(ctx)
+    if only is not None:
+        only = _closure(ctx, only)
     n = 0
     for s in sites:
         if only is not None and s.func.name not in only:
